@@ -3,15 +3,15 @@
 import json, subprocess
 
 CLAIMED = {
- "C01": ("checked reads: content file replaced by an arbitrary byte string / truncated / removed / symlinked, all checked retrieval entry points, existing destinations, 3 flavours",
+ "C01": ("checked reads: content file replaced by an arbitrary byte string / truncated / removed / symlinked, all checked retrieval entry points, existing destinations, the same process retrieving the entry before and again after in-place damage (length- and mtime-preserving), 3 flavours",
          "Bounded: <= 3 data reads per file (quick 2), single-hash integrities; ideal hash."),
  "C02": ("write/read round trip for data of any length, symbolic chunk boundaries, declared size absent or equal, all algorithms, keyed and by address, cold cache or content address occupied by wrong bytes, 3 flavours",
          "Bounded: <= 3 chunks (quick 2); healthy filesystem (full writes)."),
- "C03": ("content-area invariant at every kill point of every write (before each filesystem action and inside data writes after a symbolic torn prefix) and at normal return; declared size symbolic",
+ "C03": ("content-area invariant at every kill point of every write (before each filesystem action and inside data writes after a symbolic torn prefix) and at normal return; declared size symbolic; additionally one failing rename/mkdir/link plus a kill in the same store",
          "Bounded: <= 3 chunks; no fsync/power-loss model; rename atomic."),
  "C04": ("kill at every point of a keyed write/removal incl. torn index append of any byte length (multi-byte characters), then lookups through both APIs and continuation writes",
          "Concrete small records (so torn lengths are decided exactly); one crash per scenario."),
- "C05": ("all histories of <= 3 (thorough 4) operations over write/overwrite-with-metadata/remove x 2 keys, explicit symbolic timestamps, mixed sync/async entry points, foreign records in the bucket",
+ "C05": ("all histories of <= 3 (thorough: 4, sync flavour) operations over write/overwrite-with-metadata/remove x 2 keys, explicit symbolic timestamps, mixed sync/async entry points, foreign records in the bucket, keys whose JSON form needs escapes",
          "Bounded history length and alphabet."),
  "C06": ("index damage: truncation at a symbolic length, overwrites with symbolic byte values, inserted garbage lines; oracle from untouched records; sync and async readers",
          "One damage event; quick tier uses representative positions per structural class, thorough every byte position; ideal hash."),
@@ -19,29 +19,29 @@ CLAIMED = {
          "Granularity: control changes hands immediately before a filesystem-changing call or an open for reading, once the running process has completed such an event; blobs <= 64 bytes; one operation per process; quick: pairs (+1 triple), thorough adds cold writer pairs and triples. One known finding (F13)."),
  "C08": ("commit enforcement: symbolic declared size over the full usize range, seven classes of declared integrity, prior key states incl. same data, 3 flavours",
          "Bounded: <= 3 chunks (quick 2); well-formed integrity arguments."),
- "C09": ("remove / remove_hash / remove_fully / clear aimed at shared, distinct and never-written keys, with filesystem frame condition and explicit symbolic timestamps",
+ "C09": ("remove / remove_hash / remove_fully / clear aimed at shared, distinct and never-written keys, with filesystem frame condition and explicit symbolic timestamps; contents sharing a shard directory; sequences of two or three removals / re-writes",
          "Bounded histories (3 keys + 1 absent)."),
- "C10": ("listing vs lookup after all histories of <= 3 (thorough 4) operations, explicit symbolic timestamps, foreign records, two HashSet orders",
+ "C10": ("listing vs lookup after all histories of <= 3 (thorough 4) operations, explicit symbolic timestamps, foreign records, keys needing JSON escapes, records of up to 300 000 bytes, two HashSet orders",
          "Bounded history length; HashSet order modelled by two permutations."),
- "C11": ("metadata round trip with symbolic u128 time, symbolic size, opaque JSON / raw metadata, hostile keys, defaults tied to the clock reads of the commit, rewrites of a key",
+ "C11": ("metadata round trip with symbolic u128 time, symbolic size, opaque JSON / raw metadata, caller-attached single- and two-hash integrities, hostile keys, defaults tied to the clock reads of the commit, rewrites of a key",
          "JSON values opaque or concrete samples."),
  "C12": ("operation programs (writes with option combinations, reads, streamed reads, extraction, removals, listing, damaged content, index garbage, rejected commits) executed with the SAME symbolic inputs in the sync, async-std and tokio builds and compared step by step, plus mixed-API programs",
          "Programs of <= ~8 operations; default timestamps compared as clock readings; counterexamples confirmed by running both native builds."),
- "C13": ("exactly one filesystem action of each call fails (every action in turn, errno opaque until inspected, or short write + failure); truthful outcome, no damage, retry succeeds",
-         "Single fault per call; fault replay through an LD_PRELOAD shim."),
+ "C13": ("exactly one filesystem action of each call fails (every action in turn, errno opaque until inspected, or short write + failure); truthful outcome (a reported success of a write, removal or lookup is checked against the state), no damage, retry succeeds",
+         "Single fault per call; fault replay through an LD_PRELOAD shim. One known finding (F15)."),
  "C14": ("writers abandoned after creation / chunks / cancelled async write with the blocking job pending, and rejected commits: lookups unchanged, tmp/ empty, no index append",
          "spawn_blocking timing explored in three modes."),
- "C15": ("every filesystem action requested by every public operation under hostile keys: paths confined to the cache directory (or the explicit destination), components only fixed names / algorithm names / digest slices / temp names, read-only calls perform no mutation, confusable keys independent, over-eager cleanup above the cache root",
+ "C15": ("every filesystem action requested by every public operation under hostile keys: paths confined to the cache directory (or the explicit destination), components only fixed names / algorithm names / digest slices / temp names, read-only calls perform no mutation (also after a removal), extraction over existing destinations and with an unusable tmp/, confusable keys independent, over-eager cleanup above the cache root",
          "Observed at the library-call boundary of the model (what the modelled crates do below is outside the claim)."),
  "C16": ("every ordered pair of store entry points for the same bytes: same address, one content file, every instant of the second store inspected on the action trace (in-place modification replayed by killing the process right after the action); algorithm pairs coexist",
          "Sequential second writers (concurrent ones are C07)."),
  "C17": ("library output compared byte for byte (paths and file bytes, symbolic time/size) with an independent ~100-line reference writer, and reference-written caches read back through the library",
          "Reference = mirsym/refmodel.py, written from the format description."),
- "C18": ("extraction (copy/reflink/hard_link, checked/unchecked, by key/address) on pristine, damaged and missing content, fresh and existing destinations, filesystems with and without reflink",
+ "C18": ("extraction (copy/reflink/hard_link, checked/unchecked, by key/address) on pristine, damaged and missing content, fresh and existing destinations and destinations produced by an earlier extraction, stored content intact afterwards, filesystems with and without reflink",
          "Bounded: checked extraction <= 3 verification reads (quick 2)."),
- "C19": ("link_to by key/address with absolute and relative targets (working directory elsewhere), partial reads through the linker, target rewritten/removed/replaced afterwards, address already present as regular content, declared size/integrity",
+ "C19": ("link_to by key/address with absolute, relative and dotdot-through-symlink targets, partial reads through the linker, target rewritten/removed/replaced afterwards, twin targets with identical bytes, address already present as regular content, declared size/integrity incl. two-hash integrities",
          "Targets up to 3 verification reads (8 B probe + 2 x 16 KiB); link_to feature enabled in all dumps."),
- "C20": ("totality: every public operation on hostile on-disk states (checksum-valid records with hostile integrity strings / wrong types / missing fields, empty/NUL/newline buckets, files where directories are expected and vice versa, looping and dangling symlinks) and writers with arbitrary declared sizes; panics, aborts and step-budget hangs are violations",
+ "C20": ("totality: every public operation on hostile on-disk states (checksum-valid records with hostile integrity strings / wrong types / missing fields, empty/NUL/newline buckets, files where directories are expected and vice versa, looping and dangling symlinks) and writers with arbitrary declared sizes and timestamps, the cache changed under an open writer, extraction to odd destinations; panics, aborts and step-budget hangs are violations",
          "One known finding (F9) is reported as KNOWN-FINDING."),
 }
 REASON_PENDING = "check not built yet (engine under construction); will be claimed once its vacuity and replay guards pass"
